@@ -90,6 +90,9 @@ PlanOf(p) ==
                         e \in {"eps", "1e-9", "1e-3"}, f \in {"0", "lo", "hi", "tiny"} }
     [] p = "C07" -> { Cell("generator", key, "-", "-", "-", "-", "-", "-", 0) : key \in Range(GroupsQ) }
                     \cup { Cell("algebra", key, k, "-", "-", "-", "-", "-", 0) : key \in Range(GroupsQ), k \in {"int", "real"} }
+                    \* beyond the listed properties: vector-space operators of tangents, Jacobian*Tangent, utilities, Random()
+                    \cup { Cell("tarith", key, thc, linc, "-", "-", "-", "-", 0) : key \in Range(GroupsQ), thc \in {"small", "generic"}, linc \in {"1e-3", "1", "1e6"} }
+                    \cup { Cell("misc", key, "-", "-", "-", "-", "-", "-", 0) : key \in Range(GroupsQ) }
 
 \* Jacobian-grade properties are stated for double; single precision is exercised on the same
 \* cells except the 1e6 linear magnitude (the coupling blocks of SGal3 involve products of two
